@@ -799,3 +799,24 @@ func (p *Prog) reachesCall(fi *FuncInfo, pred CallPred, depth int) bool {
 	}
 	return false
 }
+
+// resolveLocal: an identifier of a local variable that is defined exactly once stands for its defining expression
+// (followed through up to three such definitions).
+func resolveLocal(info *types.Info, body ast.Node, e ast.Expr) ast.Expr {
+	for i := 0; i < 3; i++ {
+		id, ok := ast.Unparen(e).(*ast.Ident)
+		if !ok {
+			return e
+		}
+		o, ok := info.Uses[id].(*types.Var)
+		if !ok || o.IsField() {
+			return e
+		}
+		def, n := localDef(info, body, o)
+		if n != 1 || def == nil {
+			return e
+		}
+		e = def
+	}
+	return e
+}
